@@ -6,7 +6,7 @@
    The states are abstract (Layer A); that each of them is reached by complete pieces of list surgery —
    never in the middle of one — is the structure of panic_points itself: callbacks sit only between the
    primitives whose pointer-level correctness is C07 (B/RepB.v, B/ReallocB.v). *)
-Require Import LruV.A.PanicProps LruV.B.OpsProps LruV.B.StepB LruV.B.RefineLemmas LruV.B.RefineB LruV.B.PanicB.
+Require Import LruV.A.PanicProps LruV.B.OpsProps LruV.B.StepB LruV.B.RefineLemmas LruV.B.RefineB LruV.B.PanicB LruV.B.ReachB.
 
 (* For every operation, every state satisfying the invariant, every oracle and EVERY callback point:
    current_size equals the sum of the recorded sizes and is within the limit, keys are distinct, every
@@ -60,6 +60,24 @@ Proof. cbv zeta. split; vm_compute; reflexivity. Qed.
 Theorem C16_pointer_level_points : forall E b p oB, RIg (bg b) -> KU b ->
   Forall2 (fun x y => bk x = pk y /\ RIg (bg (bst x)) /\ absB (bst x) = pst y) (bpoints E b p oB) (panic_points E (absB b) p (ob oB)).
 Proof. exact bpoints_match. Qed.
+
+(* non-vacuity at pointer level: lowering the limit of a two-entry cache (144 bytes held) to 100 evicts one entry; the eviction
+   looks its victim up by key: one Hash and one Eq point, both with the two nodes still linked *)
+Definition C16_ex_k (i : N) : key := {| kid := i; ktok := 10 + i; kheap := 0 |}.
+Definition C16_ex_v (i : N) : val := {| vtok := 20 + i; vtag := i; vheap := 0 |}.
+Definition C16_ex_o (a : addr) : oracleB := {| ob := {| o_tomb := 0; o_reuse := false; o_alloc := true |}; ob_addr := a; ob_moves := [] |}.
+(* an empty cache (limit 1000, seal at 100) after two insertions into the buckets 1 and 2 *)
+Definition C16_ex_b2 : option bstate :=
+  match new_b 72 100 1000 0 with
+  | Some b0 => match stepB 72 24 b0 (Insert (C16_ex_k 1) (C16_ex_v 1)) (C16_ex_o 1) with
+               | Some (b1, _, _) => match stepB 72 24 b1 (Insert (C16_ex_k 2) (C16_ex_v 2)) (C16_ex_o 2) with Some (b2, _, _) => Some b2 | None => None end
+               | None => None end
+  | None => None end.
+Example C16_example_points_pointer_level :
+  match C16_ex_b2 with
+  | Some b => map (fun x => (bk x, length (glist (bg (bst x))))) (bpoints 72 b (SetMaxSize 100) (C16_ex_o 0)) = [(KHash, 2%nat); (KEq, 2%nat)]
+  | None => False end.
+Proof. vm_compute. reflexivity. Qed.
 
 Print Assumptions C16_all_points.
 Print Assumptions C16_closure.
